@@ -1,0 +1,67 @@
+//go:build verif
+
+package cache
+
+import (
+	"crypto/sha256"
+	"encoding/hex"
+	"sort"
+
+	"github.com/ExocoreNetwork/exocore/x/oracle/types"
+)
+
+// Verification hook (build tag verif, add-only): canonical dump of the unexported Cache.
+
+type VerifC14Msg struct {
+	FeederID  uint64
+	Validator string
+	PSources  string // compact text of the filtered price sources
+}
+
+type VerifC14VP struct {
+	Addr  string
+	Power string
+}
+
+type VerifC14Cache struct {
+	Nil          bool
+	Msgs         []VerifC14Msg
+	Validators   []VerifC14VP
+	ValUpdate    bool
+	ParamsHash   string
+	ParamsUpdate bool
+}
+
+func (c *Cache) VerifC14Dump() VerifC14Cache {
+	if c == nil {
+		return VerifC14Cache{Nil: true}
+	}
+	d := VerifC14Cache{}
+	if c.msg != nil {
+		for _, m := range *c.msg {
+			s := ""
+			for _, ps := range m.PSources {
+				s += ps.String() + ";"
+			}
+			d.Msgs = append(d.Msgs, VerifC14Msg{FeederID: m.FeederID, Validator: m.Validator, PSources: s})
+		}
+	}
+	if c.validators != nil {
+		d.ValUpdate = c.validators.update
+		for a, p := range c.validators.validators {
+			d.Validators = append(d.Validators, VerifC14VP{Addr: a, Power: p.String()})
+		}
+		sort.Slice(d.Validators, func(i, j int) bool { return d.Validators[i].Addr < d.Validators[j].Addr })
+	}
+	if c.params != nil {
+		d.ParamsUpdate = c.params.update
+		if c.params.params != nil {
+			p := types.Params(*c.params.params)
+			if bz, err := p.Marshal(); err == nil {
+				h := sha256.Sum256(bz)
+				d.ParamsHash = hex.EncodeToString(h[:8])
+			}
+		}
+	}
+	return d
+}
